@@ -900,3 +900,48 @@ func condImpliesFieldTrue(cond ssa.Value, truth bool, f *types.Var, depth int) b
 	}
 	return false
 }
+
+// peelDelegation: a function whose whole body hands its work to one module function and returns exactly what that
+// function returns (`return func() (DataProvider, *ZogIssue) { return decode(r) }`): the function that does the work.
+func peelDelegation(fn *ssa.Function) *ssa.Function {
+	for hop := 0; hop < 3 && fn != nil; hop++ {
+		if len(fn.Blocks) != 1 {
+			return fn
+		}
+		var call *ssa.Call
+		var ret *ssa.Return
+		other := false
+		for _, in := range fn.Blocks[0].Instrs {
+			switch x := in.(type) {
+			case *ssa.Call:
+				if call != nil {
+					other = true
+				}
+				call = x
+			case *ssa.Return:
+				ret = x
+			case *ssa.Extract, *ssa.DebugRef, *ssa.UnOp, *ssa.MakeInterface, *ssa.ChangeType:
+			default:
+				other = true
+			}
+		}
+		if other || call == nil || ret == nil {
+			return fn
+		}
+		callee := callOf(call).static
+		if callee == nil || callee.Blocks == nil || !inModule(funcPkgPath(callee)) || callee.Signature.Results().Len() != len(ret.Results) {
+			return fn
+		}
+		for i, rv := range ret.Results {
+			ex, isEx := rv.(*ssa.Extract)
+			switch {
+			case len(ret.Results) == 1 && rv == ssa.Value(call):
+			case isEx && ex.Tuple == ssa.Value(call) && ex.Index == i:
+			default:
+				return fn
+			}
+		}
+		fn = callee
+	}
+	return fn
+}
